@@ -30,6 +30,10 @@ RULE = (
     ">50 polls in a quiescent state. Bounded-exhaustive: every schedule that deviates from the eager schedule at <=3 (quick) / <=4 (thorough) choice "
     "points, for <=2 records x cores 1-3 x batch 1-2 (completion reported). Real-process tier: real multiprocessing, cores 1-3 x batch 1-3. Non-trivial = the schedule had >=1 "
     "timeout while a result was in flight and the run used >=2 workers or >=2 process groups. Distinct by SHA-1 of the case."
+    " Later additions: realign to standard output, machines with fewer CPUs than --cores (simulated) and one "
+    "core more than the machine has (real), 301 and 900 records in default-size batches through real "
+    "processes (in a child process group with a time limit), a clipped alignment of a read longer than 60 000 "
+    "bases, soft-masked sequences, wrapped FASTA, unusual read names."
 )
 ASSUMPTIONS = [
     "platform model of vf/fakemp.py (see its docstring); real-OS timing is sampled by the real-process tier only",
